@@ -22,6 +22,8 @@ numbers, and the spec monitors of C08.  One request per line, fields separated b
   predict|<k>|<j or ->                       model of the code (Async/ExportGlue.lean: generated wrapper ∥ executor): the host's
                                              observations of an async export whose body yields k times, cancelled at
                                              suspension j (- = never) → tokens
+  predict2|<s0>|<e,e,…|->|<j or ->           same, for a body that awaits one async import answered s0 at the call and
+                                             then the subtask events e…, cancelled at suspension j
   monitor|<export|import>|<tokens>           spec monitor (Async/GlueSpec.lean) on the implementation's trace
         → ok | fail:<class>
 -/
@@ -99,6 +101,22 @@ def exportScript (k : Nat) (cancelAt : Option Nat) : List Label :=
       else cbLabels true
   Label.hostCall :: go 0 (k + 1)
 
+open Witverif.Async.ExportGlue in
+/-- the label script of "the body awaits one async import": status `s0` at the call (2 = returned at once),
+then the subtask events `evs` (1 started, 2 returned), EVENT_CANCEL at suspension `cancelAt` -/
+def awaitScript (s0 : Nat) (evs : List Nat) (cancelAt : Option Nat) : List Label :=
+  let block : List Label := [.rootPoll false, .exec (.reg 1 2), .exec (.pollDone false false), .exec (.decide 0 0 0), .exec (.sleepRead 0 0 0 0)]
+  let finish : List Label := [.rootPoll true, .exec (.pollDone true true), .exec (.decide 0 0 0), .exec (.cancelRead 0), .exec .tau]
+  let cancel : List Label := [.hostCb 6 0 0, .exec (.cancelRead 0), .exec (.unreg 1), .rootDrop, .exec .dropTasksDone, .exec .tau]
+  let deliver (st : Nat) : List Label := [.hostCb 1 1 st, .exec .tau, .exec (.wake 0), .exec .cbDone, .exec (.cancelRead 0), .exec .tau]
+  let rec go (i : Nat) : List Nat → List Label
+    | [] => if cancelAt.isSome then cancel else []
+    | st :: rest =>
+      if cancelAt = some i then cancel
+      else if st = 2 then deliver st ++ finish
+      else deliver st ++ block ++ go (i + 1) rest
+  [Label.hostCall, .exec (.cancelRead 0), .exec .tau] ++ (if s0 = 2 then finish else block ++ go 0 evs)
+
 def expEvStr : Witverif.Async.GlueSpec.ExpEv → String
   | .call => "call" | .user => "user" | .ret => "ret" | .cancel => "cancel"
   | .ev e => "ev:" ++ toString e | .cb c => "cb:" ++ toString c
@@ -153,6 +171,13 @@ def handle (line : String) : String :=
           | some s => " ".intercalate (s.obs.map expEvStr)
           | none => "model-stuck"
       | _, _ => "bad-request"
+  | ["predict2", s0, evs, j] =>
+      match s0.toNat?, parseNats evs, (if j == "-" then some none else j.toNat?.map some) with
+      | some s0, some evs, some cancelAt =>
+          match Witverif.Async.ExportGlue.run (Witverif.Async.ExportGlue.Sys.init false) (awaitScript s0 evs cancelAt) with
+          | some s => " ".intercalate (s.obs.map expEvStr)
+          | none => "model-stuck"
+      | _, _, _ => "bad-request"
   | ["monitor", kind, toks] => Witverif.Async.GlueSpec.runStr kind toks
   | _ => "bad-request"
 
